@@ -47,6 +47,11 @@ CLAIMED["C04"] = dict(
    text="Every argument pattern up to the node bound (variables, _, literal identifier, literal data, sub-lists and vectors nested <= 2 with optional final ellipsis) with every canonical template and both literal sets, all ordered pairs (thorough: triples) of small rules, against every use up to the node bound: the rule set is installed through the real parser, each use is pushed through the real Transformer::transform (and, for the smallest rules, evaluated as (m ...) text) and must yield the first matching rule's instantiated template or a syntax error, as the reference matcher written from R7RS 4.3.2 says.",
    note="trusted: refsyn (self-tested on R7RS examples); pairs on which zero-or-more and one-or-more ellipsis semantics differ are outside the property's class and only counted",
    design="7/C04")
+CLAIMED["C06"] = dict(
+   technique="bounded exhaustive sweep: all strings up to a length over a 19-character alphabet, all token-pair adjacencies and all small datum trees under all layouts, against an independent tokenizer/reader",
+   text="Every string of length <= 5 (thorough 6) over 19 characters that reach every scanner transition is tokenised by the real lexer and compared with a reference tokenizer written from R7RS 7.1.1 (tokens end only at delimiters); the shorter ones are also read as quoted data through eval and compared with a reference reader. Every ordered pair of 39 token representatives x 9 separators x 5 contexts and every datum tree up to 4 (5) nodes under every layout plan is judged the same way.",
+   note="trusted: reflex (self-tested on the repository's own lexer vectors); texts that use lexical syntax outside the supported subset are counted, not judged; the pinned non-delimited booleans/characters are a known finding recognised by an exact defect-model tokenizer",
+   design="7/C06")
 NOT_YET = "check not built yet (build in progress, see DESIGN.md section 12)"
 NA = {}
 
